@@ -25,6 +25,10 @@ def song_rows(song, pat_rows_loaded):
 # reported integers are (int) truncations of a double accumulated with rounding: 1 ms for the truncation plus 1 microsecond for the rounding
 SLACK = Fraction(1) + Fraction(1, 1000)
 
+# libxmp reports times as int milliseconds and saturates at INT_MAX (scan.c:256, 684; player.c:2298): the model's exact
+# rationals are saturated the same way before they are compared with reported values (test-dev/data/longest.med lasts 108 days)
+INT_MAX = 2147483647
+
 def main():
     tier = sys.argv[1] if len(sys.argv) > 1 else "quick"
     replay = sys.argv[sys.argv.index("--replay") + 1] if "--replay" in sys.argv else None
@@ -138,12 +142,12 @@ def main():
             elif reentry: bad = "re-entry: " + reentry
             elif looped and len(parts) > 4 and [int(x) for x in parts[4].split()] != oseq: bad = "orders entered before the loop counter incremented %s vs model %s" % (oseq, parts[4])
             elif looped and endo != frames[len([1 for fr in frames if fr[5] == 0])][0]: bad = "loop counter incremented on entering order %d, model %d" % (frames[len([1 for fr in frames if fr[5] == 0])][0], endo)
-            elif abs(int(seq0[3]) - dq) > SLACK: bad = "scan duration %s vs model %s" % (seq0[3], float(dq))
+            elif abs(int(seq0[3]) - min(dq, INT_MAX)) > SLACK: bad = "scan duration %s vs model %s" % (seq0[3], float(dq))
             elif looped and t != pq: bad = "rendered time until loop %s vs model %s" % (float(t), float(pq) if pq is not None else None)
-            elif looped and abs(int(seq0[3]) - t) > tickmax: bad = "reported duration %s vs rendered %s (more than one tick apart)" % (seq0[3], float(t))
+            elif looped and dq <= INT_MAX and abs(int(seq0[3]) - t) > tickmax: bad = "reported duration %s vs rendered %s (more than one tick apart)" % (seq0[3], float(t))
             else:
                 for o, tm in otimes.items():
-                    if o in ords and abs(ords[o] - tm) > SLACK: bad = "order %d start time %d vs model %s" % (o, ords[o], float(tm)); break
+                    if o in ords and abs(ords[o] - min(tm, INT_MAX)) > SLACK: bad = "order %d start time %d vs model %s" % (o, ords[o], float(tm)); break
                     if looped and o in first and first[o] != tm: bad = "order %d first entered at %s vs model %s" % (o, float(first[o]), float(tm)); break
             if not looped and len(frames) < 60000 and bad is None:
                 bad = "playback ended without the loop counter incrementing"
